@@ -457,6 +457,29 @@ def _n7(ctx, R):
           "scan never stops early; N7b nothing attaches named children without the add notification. Decides that the index is told, "
           "checks first and normalises alike; does not decide that refusals happen exactly when a duplicate would arise.")
 def check_c10(ctx, R):
+    R.rule("N8", "every write of an element's data dictionary in spydrnet/ir is preceded by the dictionary_* dispatch the name index listens to")
+    T = ctx.typestate
+    from ..typestate import is_public_entry
+    n8 = 0
+    seen = set()
+    for (key, nones), s_ in sorted(T.table.items(), key=lambda kv: (kv[0][0], sorted(kv[0][1]))):
+        if nones:
+            continue
+        f = T.funcs[key]
+        if not is_public_entry(f):
+            continue
+        if any(w[1] == "FirstClassElement" and w[2] == "_data" and w[0] != "fresh" for w in s_.writes):
+            n8 += 1
+        for (sp, cls, field, op, okey, otext, oloc, why) in s_.unannounced:
+            if cls == "FirstClassElement" and field == "_data" and (okey, op) not in seen:
+                seen.add((okey, op))
+                R.bad("N8", "%s|_data %s" % (okey, op), oloc,
+                      "`%s` in %s changes an element's data without dispatching dictionary_set/_delete/_pop first: a rename or un-naming done this way never reaches the name index "
+                      "(stale lookups, names that stay taken)" % (otext, okey.split(":")[1]))
+    if not seen:
+        R.ok("N8", "%d public entry points write element data, all announced" % n8)
+    R.count("public entry points writing element data (N8)", n8)
+    R.floor("public entry points writing element data (N8)", 4)
     _n1(ctx, R)
     rule_n2(ctx, R)
     _n3(ctx, R)
